@@ -13,6 +13,7 @@ import (
 	"runtime"
 	"sort"
 	"strings"
+	"sync"
 	"time"
 
 	"github.com/libp2p/go-libp2p/core/network"
@@ -567,11 +568,30 @@ func cryptoProbes() {
 	}
 }
 
-type mapDB map[string][]byte
+// lockedDB: smt.Update writes nodes from several goroutines at once, the store has to tolerate that
+type lockedDB struct {
+	mu sync.Mutex
+	m  map[string][]byte
+}
 
-func (d mapDB) Get(k []byte) ([]byte, bool) { v, ok := d[string(k)]; return v, ok }
-func (d mapDB) Set(k, v []byte)             { d[string(k)] = append([]byte{}, v...) }
-func (d mapDB) Del(k []byte)                { delete(d, string(k)) }
+func mapDB(m map[string][]byte) *lockedDB { return &lockedDB{m: m} }
+
+func (d *lockedDB) Get(k []byte) ([]byte, bool) {
+	d.mu.Lock()
+	defer d.mu.Unlock()
+	v, ok := d.m[string(k)]
+	return v, ok
+}
+func (d *lockedDB) Set(k, v []byte) {
+	d.mu.Lock()
+	defer d.mu.Unlock()
+	d.m[string(k)] = append([]byte{}, v...)
+}
+func (d *lockedDB) Del(k []byte) {
+	d.mu.Lock()
+	defer d.mu.Unlock()
+	delete(d.m, string(k))
+}
 
 func hash(b []byte) []byte { return crypto.Hash(b) }
 
